@@ -468,6 +468,42 @@ func (g *world) runHeldTwoTokens(trial int) {
 	g.emit(s, "held-adjust-two-tokens")
 }
 
+// A pending completion is served although producers keep arriving (C09, work conservation under load).
+// One worker; 0 executes, 1 is handed off, 2 (adjust function, held) and 3 wait.  Batch: 0 completes -> the dispatcher
+// takes the token and parks in item 2's adjust function; 1 completes: its token is pending and the worker is idle;
+// K producers call Enqueue (priorities -1, -2, ... -K: each newcomer beats all earlier ones) and block at workChan.
+// Release: 2 is handed out and started; now the pending token and K arrivals compete at the dispatcher's select.  Go
+// chooses uniformly among the ready cases, so the token is served after j arrivals with probability 2^-(j+1); the item
+// popped for it is the best present one, i.e. newcomer j (or item 3 for j = 0), and it is the next item to start.
+// Returns true iff ALL K arrivals were served before the completion (probability 2^-K on the unchanged code).
+const fairK = 16
+
+func (g *world) runFairness(trial int) bool {
+	opts := []Opt{{"w", 1}, {"l", fairK + 6}}
+	if trial%2 == 1 {
+		opts = []Opt{{"l", fairK + 6}, {"w", 1}}
+	}
+	s := newSessOpts(opts)
+	s.do(Stim{Op: "enq", A: 1, B: 0})
+	s.do(Stim{Op: "enq", A: 1, B: 1})
+	s.do(Stim{Op: "enq", A: 1, B: 2, Adj: true})
+	s.do(Stim{Op: "enq", A: 5, B: 3})
+	sub := []Stim{{Op: "fin", A: 0, B: -1}, {Op: "fin", A: 1, B: -1}}
+	for i := 0; i < fairK; i++ {
+		sub = append(sub, Stim{Op: "enq", A: -(i + 1), B: 4 + i})
+	}
+	s.do(Stim{Op: "batch", A: 2, Sub: sub})
+	o := s.do(Stim{Op: "fin", A: 2, B: -1})
+	allFirst := len(o.Started) == 1 && o.Started[0] == 4+fairK-1
+	s.finishAll(200)
+	s.close()
+	// not replayed in Coq: the model lets the dispatcher receive the blocked producers in ANY order (2^K subsets); the
+	// clause is evaluated here, on the observation alone
+	g.sessions++
+	g.steps += len(s.steps)
+	return allFirst
+}
+
 // Many error subscribers (C14): n channels, one failing item, every channel receives the error once, in turn.
 func (g *world) runManySubscribers(n int) {
 	s := newSessOpts([]Opt{{"l", 2}, {"w", 1}})
@@ -1308,6 +1344,19 @@ func main() {
 			scope["subscribers"] = fmt.Sprintf("scripts with %v error subscribers (one failing item, every channel read in turn)", ns)
 		}
 		if *prop == "C09" {
+			nf, starved := 6, 0
+			for i := 0; i < nf; i++ {
+				if g.runFairness(i) {
+					starved++
+				}
+			}
+			scope["arrivals-vs-completion"] = fmt.Sprintf("%d trials: a completion token and %d blocked producers compete at the dispatcher; in %d trials all arrivals were served first", nf, fairK, starved)
+			if starved >= 2 {
+				g.w.Extra["burst_failures"] = []burstFailure{{Clause: "completion-starved-by-arrivals",
+					Detail: fmt.Sprintf("in %d of %d trials the dispatcher served all %d pending arrivals before the pending worker-done signal (worker idle, item waiting); on the unchanged code each such trial has probability 2^-%d", starved, nf, fairK, fairK),
+					Res:    burstRes{Cfg: burstCfg{W: 1, L: fairK + 6, N: fairK}, Trial: starved},
+					Sig:    "fairness:completion-starved-by-arrivals"}}
+			}
 			for _, c := range configScripts() {
 				g.runConfig(c)
 			}
